@@ -18,7 +18,7 @@ qm_c02 — driver for M-RefSem. Requests:
       values print as i<z> | t(<id>;v,…)
   (compile3 (fns (fn <fi> (caps x …) branch+)…) <chain3>+)  →  ok <entry code> ; f<fi> <code> ; …   (Compile3: + functions)
   (eval3 <fuel> (fns …) <chain3>+)                           →  ok <value> | stuck
-      term3 ::= term2 | (fnlit <fi> x …) | (call x)        function values print as f<fi>
+      term3 ::= term2 | (fnlit <fi> x …) | (call x) | (callnil x)        function values print as f<fi>
   (compile2 <chain2>+) / (eval2 <chain2>+)   the same with blocks (Core/RefSem/Compile2):
       term2 ::= term1 | (blk branch+)      branch ::= (br (s chain2+)) | (br (s chain2+) (s chain2+))
 The evaluation is `QM.RefSem.evalProgram`, the compilation `QM.RefSem.C0.compileCh` — the definitions
@@ -246,6 +246,7 @@ mutual
       | some fi => some (.fnlit fi (caps.filterMap (fun | .atom a => some a | _ => none)))
       | none => none
     | .list [.atom "call", .atom x] => some (.call x)
+    | .list [.atom "callnil", .atom x] => some (.callNil x)
     | .list (.atom "t" :: id :: fs) =>
       match id.asNat, parseFs fs with
       | some id, some fs => some (.tup id fs)
